@@ -59,9 +59,13 @@ pub fn file_of(sq: u8) -> u8 {
 /// rank as printed: 1..=8
 #[inline]
 pub fn rank_of(sq: u8) -> u8 {
-    8 - sq / 8
+    8u8.saturating_sub(sq / 8)
 }
 pub fn sq_name(sq: u8) -> String {
+    if sq >= 64 {
+        // the engine can hand out a Square outside the board when it is broken
+        return format!("<square#{}>", sq);
+    }
     format!("{}{}", (b'a' + file_of(sq)) as char, rank_of(sq))
 }
 pub fn code_letter(code: u8) -> char {
@@ -90,6 +94,9 @@ pub const DIR_CHARS: [char; 4] = ['n', 'e', 's', 'w'];
 /// Neighbour of `sq` in direction `dir`, by file/rank arithmetic with bounds checks.
 #[inline]
 pub fn neighbour(sq: u8, dir: u8) -> Option<u8> {
+    if sq >= 64 {
+        return None;
+    }
     let f = (sq % 8) as i8;
     let r = (sq / 8) as i8; // 0 = rank 8
     let (nf, nr) = match dir {
@@ -121,7 +128,8 @@ impl Board {
     }
     #[inline]
     pub fn at(&self, sq: u8) -> u8 {
-        self.0[sq as usize]
+        // squares outside the board (a broken engine can name them) hold nothing
+        self.0.get(sq as usize).copied().unwrap_or(EMPTY)
     }
     pub fn has_friend_adjacent(&self, sq: u8, gold: bool) -> bool {
         neighbours(sq).any(|n| {
